@@ -57,3 +57,17 @@ Definition render_read_all (cases : list (list bytes)) : string := join nl (map 
 Definition render_write (f : frame) : string :=
   match enc f with Ok b => "ok:" ++ show_hex b | Panic => "panic" | _ => "other" end.
 Definition render_write_all (cases : list frame) : string := join nl (map render_write cases).
+
+(* ---- handler mode ---- *)
+From BC Require Import Resp.Handler.
+Definition show_term (t : term) : string :=
+  match t with
+  | TClosed => "closed" | TReset => "reset" | TFrameErr e => "frameerr:" ++ show_ferr e
+  | TCmdErr _ => "cmderr" | TPanic => "panic"
+  end.
+Definition render_handler (segs : list bytes) (keys : list bytes) : string :=
+  let '(out, m, t) := handler_run [] segs in
+  show_hex out ++ "|" ++ show_term t ++ "|" ++
+  join "," (map (fun k => show_hex k ++ "=" ++ match kv_get m k with Some v => "some:" ++ show_hex v | None => "none" end) keys).
+Definition render_handlers (cases : list (list bytes * list bytes)) : string :=
+  join nl (map (fun '(segs, keys) => render_handler segs keys) cases).
